@@ -1,13 +1,16 @@
 package c20
 
 import (
+	"crypto/elliptic"
 	"encoding/binary"
 	"fmt"
 	"testing"
 
+	hybridsubtle "github.com/tink-crypto/tink-go/v2/hybrid/subtle"
 	"github.com/tink-crypto/tink-go/v2/insecuresecretdataaccess"
 	internalrandom "github.com/tink-crypto/tink-go/v2/internal/random"
 	"github.com/tink-crypto/tink-go/v2/secretdata"
+	"github.com/tink-crypto/tink-go/v2/subtle"
 	"github.com/tink-crypto/tink-go/v2/subtle/random"
 	"github.com/tink-crypto/tink-go/v2/verifharness/internal/detrand"
 )
@@ -72,12 +75,41 @@ func TestRandomSources(t *testing.T) {
 			record(t, "source", rep, msg)
 		}
 	}
+	// the ephemeral-key generators behind the hybrid encapsulations: X25519 private keys are 32 raw
+	// random bytes; ECDH key pairs on the NIST curves must at least never repeat
+	x := make([][]byte, n)
+	for i := range x {
+		k, err := subtle.GeneratePrivateKeyX25519()
+		if err != nil {
+			t.Fatalf("GeneratePrivateKeyX25519: %v", err)
+		}
+		x[i] = k
+	}
+	rep, msg := uniformBytes("source/subtle.GeneratePrivateKeyX25519", x)
+	record(t, "source", rep, msg)
+	for _, c := range []struct {
+		name  string
+		curve elliptic.Curve
+	}{{"P256", elliptic.P256()}, {"P384", elliptic.P384()}, {"P521", elliptic.P521()}} {
+		m := n / 8
+		var ds, pubs [][]byte
+		for i := 0; i < m; i++ {
+			kp, err := hybridsubtle.GenerateECDHKeyPair(c.curve)
+			if err != nil {
+				t.Fatalf("GenerateECDHKeyPair(%s): %v", c.name, err)
+			}
+			ds = append(ds, kp.D.Bytes())
+			pubs = append(pubs, append(kp.PublicKey.Point.X.Bytes(), kp.PublicKey.Point.Y.Bytes()...))
+		}
+		distinctOnly(t, "source", "source/hybrid/subtle.GenerateECDHKeyPair("+c.name+") private scalar", ds)
+		distinctOnly(t, "source", "source/hybrid/subtle.GenerateECDHKeyPair("+c.name+") public point", pubs)
+	}
 	// GetRandomUint32: the four bytes of the big-endian value (32-bit values may repeat by the
 	// birthday bound; uniformBytes does not examine repeats of fields under 8 bytes)
 	vals := make([][]byte, n)
 	for i := range vals {
 		vals[i] = binary.BigEndian.AppendUint32(nil, random.GetRandomUint32())
 	}
-	rep, msg := uniformBytes("source/subtle/random.GetRandomUint32", vals)
+	rep, msg = uniformBytes("source/subtle/random.GetRandomUint32", vals)
 	record(t, "source", rep, msg)
 }
